@@ -116,6 +116,12 @@ func exec(h H, rec *pbt.Rec) error {
 		rec.Class("all-pairs", 1)
 	}
 	var verified, rejected, nt int64
+	// answers handed out earlier must keep verifying however many queries follow
+	type heldProof struct {
+		p    *balloon.IncrementalProof
+		i, j uint64
+	}
+	var held []heldProof
 	for pi, pr := range pairs {
 		i, j := pr[0], pr[1]
 		if j >= uint64(n) || i > j {
@@ -143,6 +149,9 @@ func exec(h H, rec *pbt.Rec) error {
 		verified++
 		if i < j && j >= 2 {
 			nt++
+		}
+		if len(held) < 80 && (pi%3 == 0 || len(pairs) < 40) {
+			held = append(held, heldProof{p, i, j})
 		}
 		// (a) other versions' digests
 		cand := map[uint64]bool{}
@@ -240,6 +249,44 @@ func exec(h H, rec *pbt.Rec) error {
 				}
 			}
 		}
+	}
+	for _, hp := range held {
+		if !hp.p.Verify(b.Snaps[hp.i], b.Snaps[hp.j]) {
+			return fmt.Errorf("consistency(%d,%d): the proof verified when it was returned, but no longer verifies against the same snapshots after later queries: an answer changed after it was handed out", hp.i, hp.j)
+		}
+	}
+	rec.Count("held_proofs_reverified", int64(len(held)))
+	// several auditors asking at once: each must get a proof for its own pair that verifies
+	if len(held) >= 2 {
+		const workers = 4
+		errs := make(chan error, workers)
+		for w := 0; w < workers; w++ {
+			go func(w int) {
+				for k := 0; k < 3*len(held); k++ {
+					hp := held[(k*workers+w)%len(held)]
+					p, err := b.Bal.QueryConsistency(hp.i, hp.j)
+					if err != nil {
+						errs <- fmt.Errorf("consistency(%d,%d) asked while other consistency queries run: %v", hp.i, hp.j, err)
+						return
+					}
+					if p.Start != hp.i || p.End != hp.j || !p.Verify(b.Snaps[hp.i], b.Snaps[hp.j]) {
+						errs <- fmt.Errorf("consistency(%d,%d) asked while other consistency queries run: the genuine proof is rejected (names (%d,%d))", hp.i, hp.j, p.Start, p.End)
+						return
+					}
+				}
+				errs <- nil
+			}(w)
+		}
+		var first error
+		for w := 0; w < workers; w++ {
+			if err := <-errs; err != nil && first == nil {
+				first = err
+			}
+		}
+		if first != nil {
+			return first
+		}
+		rec.Count("concurrent_pairs_verified", int64(workers*3*len(held)))
 	}
 	// out-of-range requests
 	for _, a := range [][2]uint64{{0, uint64(n)}, {uint64(n), uint64(n)}, {uint64(n - 1), uint64(n) + 5}, {1, 0}, {uint64(n), 0}, {0, 1<<64 - 1}} {
